@@ -125,25 +125,31 @@ class Link:
         finally:
             self.pumping = False
 
-    def run_client(self, make_coro_or_call):
-        """Run a client/server API call to completion while pumping."""
+    def run_client(self, make_coro_or_call, max_c2s=None, max_s2c=None):
+        """Run a client/server API call to completion while pumping (with
+        max_c2s / max_s2c = 0 the frames of that direction stay in flight
+        until the call has returned, e.g. timed out)."""
+        lim = dict(max_c2s=max_c2s, max_s2c=max_s2c)
+        held = max_c2s is not None or max_s2c is not None
         if not self.aio:
-            self.ch.on_wait = self.pump
-            self.sh.on_wait = self.pump
+            self.ch.on_wait = lambda *a: self.pump(**lim)
+            self.sh.on_wait = lambda *a: self.pump(**lim)
             try:
                 r = make_coro_or_call()
             finally:
                 self.ch.on_wait = None
                 self.sh.on_wait = None
-            self.pump()
+                if not held:
+                    self.pump()
             return r
         task = self.loop.spawn(make_coro_or_call())
         for _ in range(200):
             self.loop.run_until_idle()
-            self.pump()
+            self.pump(**lim)
             self.loop.run_until_idle()
             if task.done():
-                self.pump()
+                if not held:
+                    self.pump()
                 return task.result()
             if not self.ch.outbox and not self.loop._ready:
                 # nothing in flight: only a timer can finish the call
